@@ -1,0 +1,18 @@
+//go:build verif
+
+package css_lexer
+
+// C16 (termination, bounds): RangeOfIdentifier scans forward from `loc` to build the range of a diagnostic. The scan must
+// make progress on every iteration and stop at the end of the input: at the end DecodeRuneInString returns
+// (U+FFFD, 0), and U+FFFD counts as a name character.
+//@ func RangeOfIdentifier
+//@   arith int
+//@   nooverflow off
+//@   safety
+//@   prop C16
+//@   opt scenario css_range_of_identifier_eof
+//@   requires 0 <= int(loc.Start) && int(loc.Start) <= len(source.Contents)
+//@   loop 0 invariant 0 <= i && i <= n && n == len(text)
+//@   loop 0 decreases n - i
+//@   loop 1 invariant 0 <= i && i <= n && n == len(text) && 0 <= j && j <= 5 && i >= atentry(i) && 0 <= width && i + width <= n
+//@   loop 1 decreases 5 - j
